@@ -131,6 +131,7 @@ func (r *c08Reader) read(p []byte) (int, error) {
 
 type c08Result struct {
 	records  [][]byte
+	trace    []string // per operation: records so far . offsetSearch . offsetAppend
 	search   int
 	appendTo int
 	capacity int
@@ -149,6 +150,10 @@ func c08Exec(sc *c08Script, conn bool) (res c08Result) {
 	}
 	var mlr *tcplistener.VerifMultiLineReader
 	res.status = "ok"
+	step := func() {
+		s, a, _ := mlr.Offsets()
+		res.trace = append(res.trace, fmt.Sprintf("%d.%d.%d", len(res.records), s, a))
+	}
 	func() {
 		defer func() {
 			if r := recover(); r != nil {
@@ -166,16 +171,22 @@ func c08Exec(sc *c08Script, conn bool) (res c08Result) {
 			for {
 				readErr := mlr.Read()
 				if readErr == nil {
+					if !rd.inFrag {
+						step() // the fragment is consumed: one read operation of the script is done
+					}
 					if rd.renewed {
 						mlr.Flush()
+						step()
 					}
 					continue
 				}
 				if util.IsNetworkTimeout(readErr) {
 					mlr.Flush()
+					step()
 					continue
 				}
 				mlr.FlushAll()
+				step()
 				break
 			}
 			return
@@ -191,13 +202,17 @@ func c08Exec(sc *c08Script, conn bool) (res c08Result) {
 						}
 					}
 				}
+				step()
 				if ev.code == c08DataRen {
 					mlr.Flush()
+					step()
 				}
 			case c08Timeout:
 				mlr.Flush()
+				step()
 			default:
 				mlr.FlushAll()
+				step()
 			}
 		}
 	}()
@@ -212,7 +227,7 @@ func c08Show(res *c08Result) string {
 		return res.status
 	}
 	var sb strings.Builder
-	fmt.Fprintf(&sb, "ok:%d:%d,%d:", len(res.records), res.search, res.appendTo)
+	fmt.Fprintf(&sb, "ok:%d:%s:", len(res.records), strings.Join(res.trace, ";"))
 	for i, r := range res.records {
 		if i > 0 {
 			sb.WriteByte(',')
@@ -248,6 +263,12 @@ func c08Run(c *Case) (out string, fails []Fail) {
 			}
 		}
 		return out, fails
+	case 3:
+		return c08RunTCP(c)
+	case 4:
+		return c08RunWrapper(c)
+	case 5:
+		return c08RunBurst(c)
 	case 0, 2:
 		sc, ok := c08Decode(c)
 		if !ok {
